@@ -35,6 +35,7 @@ HANDS = ["h_mem_rmw", "h_mem_condwrite", "h_mem_multi", "h_retime_enable", "h_re
 OMODES = ["single", "entity", "partition"]
 TOOLS = ["default", "ghdl", "vivado", "quartus"]
 KNOWN_PARTITION = "partition-file-order"
+MAX_CERT_INPUT_BITS = 8
 # files whose content is (only) a list of source files in the order of AST::getSourceFiles()
 LISTFILES = ("files.txt", "files_sim.txt", "export/standalone.txt", "export/project.txt")
 
@@ -120,6 +121,17 @@ def only_line_order_differs(a, b):
     except OSError:
         return False
     return la == lb
+
+
+def input_bits(tracefile):
+    try:
+        for line in open(tracefile):
+            p = line.split()
+            if p and p[0] == "pins":
+                return sum(int(x.rsplit(":", 1)[1]) for x in p[2:p.index("out")])
+    except (OSError, ValueError):
+        pass
+    return 10 ** 6
 
 
 def addr_info(d):
@@ -300,6 +312,7 @@ def main():
 
     lines = []
     cert_pairs = {}
+    cert_skipped_wide = 0
     if driver:
         nets = WORK / "nets"
         if nets.exists():
@@ -313,14 +326,18 @@ def main():
             os.symlink(out / ref / d / "post.net", a)
             tr = out / ref / d / "sim.trace"
             cmds.append(f"tie {a} {tr}")
+            ibits = input_bits(tr)
             for s in shuffled:
                 if not (out / s / d / "post.net").exists():
                     continue
                 b = nets / f"{d}.{s.split('.')[1]}.net"
                 os.symlink(out / s / d / "post.net", b)
                 cmds.append(f"tie {b} {out / s / d / 'sim.trace'}")
-                cmds.append(f"cert strict {a} {b} {tr} {budget}")
-                cert_pairs[(a.name, b.name)] = (d, s)
+                if ibits <= MAX_CERT_INPUT_BITS:      # the checker enumerates all 3^bits input vectors
+                    cmds.append(f"cert strict {a} {b} {tr} {budget}")
+                    cert_pairs[(a.name, b.name)] = (d, s)
+                else:
+                    cert_skipped_wide += 1
         lines = circ.run_driver(driver, cmds, str(WORK / "batch"))
     tie_ok = sum(1 for l in lines if l.startswith("TIE") and " ok " in l)
     tie_bad = [l for l in lines if l.startswith("TIE") and "MISMATCH" in l]
@@ -415,6 +432,7 @@ def main():
     rep.cov["certificates_rejected_by_checker"] = len(cert_rej)
     rep.cov["certificates_too_big"] = len(cert_big)
     rep.cov["certificates_unsupported"] = len(cert_uns)
+    rep.cov["certificates_not_attempted_more_than_8_input_bits"] = cert_skipped_wide
     rep.cov["disagreements_checked"] = len(cert_fail)
     rep.cov["wall_s_harness_processes"] = round(t_run, 1)
     sd = designs[0]
